@@ -93,13 +93,13 @@ CLAIMED = {
             "write all conversions equal the dense accumulation; inconsistent block shapes raise on every history; constructor rejects invalid shapes. "
             "Right level: the property is about the container's control flow over value/key kinds, values only flow through.", "4/C15",
             "symbolic execution of the real container code on z3-term values over enumerated write histories; equalities decided by the normal form of the symbolic scalars / z3; float cross-check on the unshimmed scipy code",
-            "Histories bounded to length 3 (quick) / 4 (thorough) on a 3x3 container with concrete index sets; array('d') and scipy conversions stubbed by their documented law."),
+            "Histories bounded to length 3 (quick) / 4 (thorough) on a 3x3 container, all histories <= 2 with slice keys on 3x3, 2x4, 4x2; concrete index sets; array('d') and scipy conversions stubbed by their documented law (values, not bytes)."),
     "C22": ("model_checking", "The user function is an arbitrary map (fresh symbols per call), linear solves return arbitrary vectors; every path of the real "
             "fsolve / fixed-point loops within the iteration bound is explored and on each path the solver decides: success iff the scaled residual "
             "criterion holds at the returned point (residual evaluated there), warning iff not converged, fixed-point helpers return only iterates "
             "meeting atol/rtol and raise only otherwise; approx_fprime exact on quadratics (3-point) / first-order error eps*A_ii (2-point).", "4/C22",
             "path-exploring symbolic execution of the real helper code with scripted environment + z3 nlsat per path obligation; float replay of models",
-            "Bounds: dimension <= 2, iteration limits <= 2 (quick) / 3; 'cs' method and ill-conditioning outside."),
+            "Also a map that updates its argument in place and NaN-able error norms (IEEE comparison semantics, replay injects NaN). Bounds: dimension <= 2, iteration limits <= 2 (quick) / 3; 'cs' method and ill-conditioning outside."),
     "C21": ("model_checking", "The real solve() of BackwardEuler, Rattle, Moreau, DualStormerVerlet and the static Newton solver runs on tiny systems while "
             "the outcome of every nonlinear solve and fixed-point test is a symbolic boolean; the path engine explores every fault schedule within "
             "the bound (2 steps x 2 iterations, continue_with_unconverged on/off) and a monitor decides on each: failure => raised, or warned and "
@@ -111,7 +111,7 @@ CLAIMED = {
             "using that law. (b) Row counts and widths of all stored fields on concrete runs of every solver. (c) Solution.__iter__ with symbolic "
             "entries: one record per instant, each field equal to its row.", "4/C20",
             "bit-precise floating-point SMT (z3 QF_FP) of the grid construction read from the solver source + symbolic execution of Solution.__iter__; float replay on the real solvers",
-            "Bounded to <= 5 (quick) / 16 (thorough) grid points, t0 = 0; known finding C20-time-grid-rounding (reported as KNOWN-FINDING); save/load outside."),
+            "The step count of loop solvers is TRANSLATED from the loop's iterable (+ - * /, int, round, ceil, floor, len(np.arange)); exact clauses (known finding C20-time-grid-rounding, reported as KNOWN-FINDING) and half-step-tolerant clauses; constructions outside the translator run the real solver on solver-chosen class representatives (no proof claimed there). Rows also on every fault schedule (truncated runs). Bounded to <= 5 (quick) / 16 (thorough) grid points, t0 = 0; save/load outside."),
     "C25": ("proof", "Inductive step of the angle tracking: from ANY tracking state satisfying the invariant (integer turn count n, previous quadrant) one "
             "call of the real Revolute.l after an increment |delta| < pi/2 returns angle0 + 2 pi (n + m) + phi with the wrap count m, leaves turn "
             "count n + m and the quadrant of the new angle, is idempotent, and reset / assembly establish the invariant. All four quadrant branches "
@@ -129,21 +129,21 @@ CLAIMED = {
             "API; index sets partition their ranges; assemble() twice leaves layout and evaluations unchanged; add/remove/pop/extend histories keep "
             "names unique and the registry exact.", "4/C14",
             "symbolic execution of the real assembly / scatter code on z3-term states (equalities decided by the symbolic normal form / z3) + bounded exhaustive registry histories; float cross-check on the unshimmed code",
-            "Bounded: three system families, registry histories of length <= 3 (quick) / 4; PD/PID controllers are exercised in C08 instead."),
+            "Also derived evaluations (xi_F, chi_*, zeta_g, g_dot_u, E_kin, Mu_q, tau / set_tau) incl. an actuator family with ntau != nla_tau and a rod with a spring between two of its own cross-sections (repeated DOFs). Bounded: these system families, registry histories of length <= 3 (quick) / 4."),
     "C17": ("proof", "Inductive step from an arbitrary symbolic state: the real Moreau.step is executed with the linear solve stubbed by the LU contract and "
             "the rows of its recorded linear system are proved identical to the momentum balance and to -g_dot at the midpoint configuration evaluated at "
             "the solution (so the midpoint velocity constraints hold exactly at every step); BackwardEuler.R_x and Rattle.R_x1 rows identical to "
             "g/gamma/c at (t_{n+1}, q_{n+1}); step_callback normalises quaternions and leaves g, g_dot unchanged; ScipyIVP multipliers satisfy the "
             "equations of motion and g_ddot = 0.", "4/C17",
             "symbolic execution of the real solver step / residual code on z3 terms with the LU contract (rows-as-identities) + z3 nlsat per scalar obligation; float replay",
-            "Per-step algebraic guarantees only: Rattle stage 2, ScipyDAE drift, DualStormerVerlet and accumulated error over many steps are outside; "
+            "Also through the real solve() / _step with the nonlinear / fixed-point helper replaced by its contract stub: Rattle velocity stage and DualStormerVerlet (moving anchor); forwarding of tolerances to the scipy integrators; initial normalisation. Per-step algebraic guarantees only: ScipyDAE drift (third-party integrator) and accumulated error over many steps are outside; "
             "'within solver tolerance' follows by composition with C22 (argued in DESIGN)."),
     "C18": ("proof", "The real projection stages (Moreau.prox, Rattle.prox1/prox2, BackwardEuler.prox) run on solver objects whose per-step state is "
             "symbolic; on every path of the min / ball projections: P_N >= 0, friction in the Coulomb disk; at a fixed point of the projection "
             "(hypothesis): complementarity with the gap resp. the restituted gap rate, and for sliding contacts maximal dissipation; contacts that are not "
             "closed get no velocity-level percussion.", "4/C18",
             "path-exploring symbolic execution of the real projection code on z3 terms + z3 nlsat per obligation under the fixed-point hypothesis; float replay at float fixed points",
-            "One contact, two friction components; reaching the fixed point, DualStormerVerlet and the kinetic-energy clause are outside."),
+            "One contact with two friction components (two contacts for the index sets of BackwardEuler / Rattle stage 1); DualStormerVerlet's projection closure through its real _step; Moreau.step on sphere-sphere contact (restituted gap rate on the midpoint kinematics); reaching the fixed point and the kinetic-energy clause are outside."),
     "C16": ("proof", "The real System.assemble / consistent_initial_conditions runs symbolically (parameters, admissible initial values and the LU-stub "
             "outputs symbolic): the rows of the recorded initial linear system are proved identical to the equations of motion including applied, "
             "actuator, compliance and constraint forces and to g_ddot; on every path that returns the initial state satisfies the position / velocity "
@@ -156,7 +156,7 @@ CLAIMED = {
             "basis direction, and the residual of a rigidly moved problem is the rotated residual (rigid body; rod in the thorough tier). With C22's "
             "fsolve contract every converged load step satisfies these rows within the tolerance; truncation / continuation are explored in C21.",
             "4/C23", "symbolic execution of the real static-solver residual / Jacobian code on z3-term jets + z3 nlsat per scalar obligation; float replay",
-            "That the solvers find an equilibrium, Riks' arc-length control and contact branches are outside; Jacobian per basis direction (three seeded directions per system in the quick tier)."),
+            "Also Riks.R rows (contact, compliance, constraint) and the bookkeeping of the real Newton.solve / Riks.solve with fsolve replaced by its contract stub returning symbolic vectors (every returned point is the solve's result for its own load level, options forwarded, failing step truncated). That the solvers find an equilibrium is outside; Jacobian per basis direction (three seeded directions per system in the quick tier)."),
     "C24": ("proof", "Model preservation: a copy of an assembled system is re-initialised (System.deepcopy + set_new_initial_state) at a symbolic consistent "
             "state; every model function of the copy (g, g_dot, W_g, joint angle incl. tracked turns, angle rate, spring energy, contact gaps and slip "
             "velocities) is proved equal to the original's at an arbitrary second symbolic state; no exception on any path.", "4/C24",
